@@ -85,6 +85,9 @@ class Reference:
     def __init__(self, program: dict, exact_overshoot: bool = False, initial_futures: dict | None = None):
         self.p = program
         self._initial_futures = initial_futures or {}
+        if program.get("watch"):
+            program = {**program, "watch": [dict(w, _fired=False) for w in program["watch"]]}
+            self.p = program
         self.n_parked = 0  # processes currently parked on a (named or composite) future
         self.end_ns = program.get("end_ns")
         self.table = program["table"]
@@ -346,7 +349,15 @@ class Reference:
                 if rec["kind"] == "ev":
                     rec["discarded"] = True
                 continue
-            self.now = t
+            if t != self.now:
+                self.now = t
+                # time-advance hooks run after the clock moved and before the event is delivered: a watchdog
+                # registered through control.on_time_advance resolves its future here
+                for w in self.p.get("watch") or []:
+                    if not w.get("_fired") and t >= w["t"]:
+                        w["_fired"] = True
+                        self._stat("resolves_from_time_advance_hook")
+                        self._resolve(self._fut(w["f"]), w["v"])
             self.processed += 1
             if self.processed > max_deliveries:
                 raise RuntimeError("reference budget exceeded")
@@ -403,6 +414,10 @@ class GenWrapper(_abc.Generator):
 
     def close(self):
         return self._gen.close()
+
+
+class _Seconds(float):
+    """A user's unit type: a float subclass."""
 
 
 class RealRun:
@@ -498,6 +513,19 @@ class RealRun:
         return events
 
     @staticmethod
+    def _delay_obj(stmt):
+        """The delay as the object a user would yield: a float / int, or a subclass of one (numpy.float64 from a
+        numpy reduction, a `class Seconds(float)`)."""
+        d, kind = stmt["d"], stmt.get("d_kind")
+        if kind == "np":
+            import numpy as np
+
+            return np.float64(d)
+        if kind == "sub":
+            return _Seconds(d)
+        return d
+
+    @staticmethod
     def _val(v):
         """JSON value -> the object handed to resolve(): ["<exc>", name, msg] stands for an exception INSTANCE
         used as data (fut.resolve(TimeoutError("..."))), everything else is itself."""
@@ -549,7 +577,7 @@ class RealRun:
                     # one list object shared by every yield of the run (a module-level NO_EVENTS = [] idiom)
                     got = yield (stmt["d"], self._shared_empty)
                 elif side is None:
-                    got = yield stmt["d"]
+                    got = yield self._delay_obj(stmt)
                 else:
                     evs = self._make_events(side)
                     got = yield (stmt["d"], self._style(evs, stmt.get("side_style", "list")))
@@ -628,6 +656,16 @@ class RealRun:
             kw["end_time"] = Instant(end) if end is not None else (Instant.Infinity if self.p.get("explicit_infinity") else None)
         self.sim = Simulation(entities=list(self.entities), **kw)
         self.clock = self.sim._clock
+        if self.p.get("watch"):
+            pending = [dict(w) for w in self.p["watch"]]
+
+            def on_time(t, pending=pending):
+                for w in pending:
+                    if not w.get("_fired") and t.nanoseconds >= w["t"]:
+                        w["_fired"] = True
+                        self._fut(w["f"]).resolve(self._val(w["v"]))
+
+            self.sim.control.on_time_advance(on_time)
         for i in range(n_before, len(pre)):
             created[i] = self._mk(pre[i], pre[i]["t"])
         for i, spec in enumerate(pre):
